@@ -1,41 +1,525 @@
 // c25: conformance harness binding TLSRecord.tla to zcrypto's record layer.
+//
+//	c25 combos <expected.ndjson>               handshake every (version, suite, key) candidate; compare the
+//	                                           negotiable set with the specification's coverage obligation
+//	c25 replay-sched <cases.ndjson> <mode>     TLC fault schedules on real connections (mode "class": every case once
+//	                                           per cipher class and direction parity; "all": every case on every
+//	                                           negotiable combination in both directions)
+//	c25 pad <cases.ndjson>                     Padding(payload) vs extractPadding
+//	c25 fmt <cases.ndjson>                     record formats vs halfConn.encrypt / decrypt
+//	c25 record <out.ndjson> <n>                n seeded random executions (real fragmentation, random faults,
+//	                                           segmentation, read sizes) as events for Trace_TLSRecord
+//	c25 record-one <replay.json> <out.ndjson>  re-record one execution
+//	c25 replay <replay.json>                   one schedule / padding / format case (exit 1 if reproduced)
 package main
 
 import (
+	"bytes"
+	"encoding/json"
 	"fmt"
+	"math/rand"
 	"os"
+	"runtime"
 	"sort"
+	"strconv"
+	"sync"
 	"time"
 
+	"github.com/zmap/zcrypto/tls"
 	"verifharness/lib/obs"
 )
 
+func workers() int {
+	w, err := strconv.Atoi(os.Getenv("VERIF_WORKERS"))
+	if err != nil || w < 1 {
+		w = runtime.NumCPU()
+	}
+	if w > 16 {
+		w = 16
+	}
+	return w
+}
+
+func negotiable() []Combo {
+	var ok []Combo
+	for _, c := range allCombos() {
+		p, err := connect(c, Opts{}, 1)
+		if err != nil {
+			continue
+		}
+		p.closeAll()
+		ok = append(ok, c)
+	}
+	sort.Slice(ok, func(i, j int) bool { return ok[i].String() < ok[j].String() })
+	return ok
+}
+
+type replayBody struct {
+	Run    *Run          `json:"run,omitempty"`
+	Pad    *PadCase      `json:"pad,omitempty"`
+	Fmt    *FmtCase      `json:"fmt,omitempty"`
+	Record *RecordedSpec `json:"record,omitempty"`
+}
+
 func main() {
-	if len(os.Args) < 2 {
+	if len(os.Args) < 3 {
 		obs.Fatal("usage")
 	}
 	switch os.Args[1] {
-	case "probe":
-		t0 := time.Now()
-		neg := map[string]int{}
-		var ok []Combo
-		for _, c := range allCombos() {
-			p, err := connect(c, Opts{}, 1)
-			if err != nil {
-				continue
+	case "combos":
+		want := map[string]bool{}
+		err := obs.ReadLines(os.Args[2], func(line []byte) error {
+			var c Combo
+			if err := json.Unmarshal(line, &c); err != nil {
+				return err
 			}
-			p.closeAll()
-			ok = append(ok, c)
-			neg[c.Class]++
+			want[c.String()] = true
+			return nil
+		})
+		if err != nil {
+			obs.Fatal("%v", err)
 		}
-		sort.Slice(ok, func(i, j int) bool { return ok[i].String() < ok[j].String() })
-		for _, c := range ok {
-			fmt.Println("NEG", c, c.Class)
+		got := map[string]bool{}
+		classes := map[string]int{}
+		for _, c := range negotiable() {
+			got[c.String()] = true
+			classes[c.Class]++
 		}
-		obs.Stat("negotiable", len(ok))
-		obs.Stat("classes", neg)
-		obs.Stat("probe_ms", time.Since(t0).Milliseconds())
+		var missing, extra []string
+		for k := range want {
+			if !got[k] {
+				missing = append(missing, k)
+			}
+		}
+		for k := range got {
+			if !want[k] {
+				extra = append(extra, k)
+			}
+		}
+		sort.Strings(missing)
+		sort.Strings(extra)
+		obs.Stat("negotiable", len(got))
+		obs.Stat("classes", classes)
+		obs.Stat("missing", missing)
+		obs.Stat("extra", extra)
+	case "replay-sched":
+		var cases []SchedCase
+		err := obs.ReadLines(os.Args[2], func(line []byte) error {
+			var c SchedCase
+			if err := json.Unmarshal(line, &c); err != nil {
+				return err
+			}
+			cases = append(cases, c)
+			return nil
+		})
+		if err != nil {
+			obs.Fatal("%v", err)
+		}
+		mode := os.Args[3]
+		combos := negotiable()
+		byClass := map[string][]Combo{}
+		for _, c := range combos {
+			byClass[c.Class] = append(byClass[c.Class], c)
+		}
+		var runs []Run
+		for _, cs := range cases {
+			for class, list := range byClass {
+				if cs.Plan == "split" && class != "cbc-implicit-iv" {
+					continue
+				}
+				if mode == "all" {
+					for _, cb := range list {
+						runs = append(runs, Run{Case: cs, Combo: cb, Dir: 0}, Run{Case: cs, Combo: cb, Dir: 1})
+					}
+				} else {
+					cb := list[(cs.ID+int(obs.Seed()))%len(list)]
+					runs = append(runs, Run{Case: cs, Combo: cb, Dir: (cs.ID + len(class) + int(obs.Seed())) % 2})
+				}
+			}
+		}
+		var mu sync.Mutex
+		seen := map[string]bool{}
+		stats := map[string]int{}
+		perClass := map[string]int{}
+		perCombo := map[string]int{}
+		var hardErr error
+		jobs := make(chan int)
+		var wg sync.WaitGroup
+		for w := 0; w < workers(); w++ {
+			wg.Add(1)
+			go func() {
+				defer wg.Done()
+				for i := range jobs {
+					r := runs[i]
+					fs, st, err := runSched(&r)
+					mu.Lock()
+					if err != nil {
+						if hardErr == nil {
+							hardErr = fmt.Errorf("case %d on %s dir %d: %v", r.Case.ID, r.Combo, r.Dir, err)
+						}
+						mu.Unlock()
+						continue
+					}
+					stats["runs"]++
+					if st.skipped != "" {
+						stats["skipped"]++
+						if stats["skipped"] <= 3 {
+							fmt.Fprintln(os.Stderr, "skipped:", r.Combo, st.skipped)
+						}
+					} else {
+						perClass[r.Combo.Class]++
+						perCombo[r.Combo.String()]++
+						if st.deliveredAll {
+							stats["delivered_all_accepted"]++
+						} else {
+							stats["delivered_less_than_accepted"]++
+						}
+						if len(r.Case.Faults) > 0 {
+							stats["with_faults"]++
+						}
+					}
+					for _, f := range fs {
+						sig := schedSig(&r, f)
+						k, _ := json.Marshal(sig)
+						if !seen[string(k)] {
+							seen[string(k)] = true
+							rr := r
+							rr.Kind = f.kind
+							obs.Emit(obs.Candidate{Sig: sig, What: fmt.Sprintf("%s, %s: %s", r.Combo, []string{"client->server", "server->client"}[r.Dir], f.what),
+								Case: replayBody{Run: &rr}})
+						}
+					}
+					mu.Unlock()
+				}
+			}()
+		}
+		for i := range runs {
+			jobs <- i
+		}
+		close(jobs)
+		wg.Wait()
+		if hardErr != nil {
+			obs.Fatal("%v", hardErr)
+		}
+		obs.Stat("cases", len(cases))
+		obs.Stat("stats", stats)
+		obs.Stat("per_class", perClass)
+		obs.Stat("combos_exercised", len(perCombo))
+		obs.Stat("combos_negotiable", len(combos))
+	case "pad":
+		n, bad := 0, 0
+		seen := map[string]bool{}
+		err := obs.ReadLines(os.Args[2], func(line []byte) error {
+			var c PadCase
+			if err := json.Unmarshal(line, &c); err != nil {
+				return err
+			}
+			n++
+			if f := runPad(&c); f != nil {
+				bad++
+				sig := map[string]any{"kind": "padding", "spec_good": c.Good == 255, "len_class": lenClass(len(c.Payload))}
+				k, _ := json.Marshal(sig)
+				if !seen[string(k)] {
+					seen[string(k)] = true
+					obs.Emit(obs.Candidate{Sig: sig, What: f.what, Case: replayBody{Pad: &c}})
+				}
+			}
+			return nil
+		})
+		if err != nil {
+			obs.Fatal("%v", err)
+		}
+		obs.Stat("cases", n)
+	case "fmt":
+		n, recs := 0, 0
+		seen := map[string]bool{}
+		err := obs.ReadLines(os.Args[2], func(line []byte) error {
+			var c FmtCase
+			if err := json.Unmarshal(line, &c); err != nil {
+				return err
+			}
+			n++
+			recs += len(c.Recs)
+			for t := int64(0); t < 2; t++ {
+				seed := obs.Seed()*1009 + int64(n)*7 + t
+				f, err := runFmt(&c, seed)
+				if err != nil {
+					return fmt.Errorf("format case %d: %v", n, err)
+				}
+				if f != nil {
+					sig := map[string]any{"kind": f.kind, "cls": c.RP.Cls, "ver": c.RP.Ver, "bc": c.RP.BC}
+					k, _ := json.Marshal(sig)
+					if !seen[string(k)] {
+						seen[string(k)] = true
+						cc := c
+						cc.Kind, cc.Seed = f.kind, seed
+						obs.Emit(obs.Candidate{Sig: sig, What: f.what, Case: replayBody{Fmt: &cc}})
+					}
+					break
+				}
+			}
+			return nil
+		})
+		if err != nil {
+			obs.Fatal("%v", err)
+		}
+		obs.Stat("cases", n)
+		obs.Stat("records", recs)
+	case "record":
+		count, _ := strconv.Atoi(os.Args[3])
+		combos := negotiable()
+		rng := rand.New(rand.NewSource(obs.Seed()))
+		specs := make([]RecordedSpec, count)
+		for i := range specs {
+			specs[i] = randomSpec(rng, combos, i)
+		}
+		events := make([][]map[string]any, count)
+		var mu sync.Mutex
+		var hardErr error
+		jobs := make(chan int)
+		var wg sync.WaitGroup
+		for w := 0; w < workers(); w++ {
+			wg.Add(1)
+			go func() {
+				defer wg.Done()
+				for i := range jobs {
+					ev, err := recordOne(&specs[i])
+					mu.Lock()
+					if err != nil && hardErr == nil {
+						hardErr = fmt.Errorf("trace %d (%s): %v", i, specs[i].Combo, err)
+					}
+					events[i] = ev
+					mu.Unlock()
+				}
+			}()
+		}
+		for i := range specs {
+			jobs <- i
+		}
+		close(jobs)
+		wg.Wait()
+		if hardErr != nil {
+			obs.Fatal("%v", hardErr)
+		}
+		w := obs.NewWriter(os.Args[2])
+		ws := obs.NewWriter(os.Args[2] + ".specs")
+		total := 0
+		for i := range events {
+			for _, e := range events[i] {
+				w.Write(e)
+				total++
+			}
+			ws.Write(specs[i])
+		}
+		w.Close()
+		ws.Close()
+		obs.Stat("traces", count)
+		obs.Stat("events", total)
+	case "record-one":
+		var b replayBody
+		obs.ReadReplay(os.Args[2], &b)
+		if b.Record == nil {
+			obs.Fatal("not a recorded-execution replay file")
+		}
+		ev, err := recordOne(b.Record)
+		if err != nil {
+			obs.Fatal("%v", err)
+		}
+		w := obs.NewWriter(os.Args[3])
+		for _, e := range ev {
+			w.Write(e)
+		}
+		w.Close()
+	case "replay":
+		var b replayBody
+		obs.ReadReplay(os.Args[2], &b)
+		switch {
+		case b.Run != nil:
+			fs, _, err := runSched(b.Run)
+			if err != nil {
+				obs.Fatal("%v", err)
+			}
+			for _, f := range fs {
+				if f.kind == b.Run.Kind {
+					fmt.Println("reproduced:", f.what)
+					os.Exit(1)
+				}
+			}
+		case b.Pad != nil:
+			if f := runPad(b.Pad); f != nil {
+				fmt.Println("reproduced:", f.what)
+				os.Exit(1)
+			}
+		case b.Fmt != nil:
+			f, err := runFmt(b.Fmt, b.Fmt.Seed)
+			if err != nil {
+				obs.Fatal("%v", err)
+			}
+			if f != nil && f.kind == b.Fmt.Kind {
+				fmt.Println("reproduced:", f.what)
+				os.Exit(1)
+			}
+		default:
+			obs.Fatal("empty replay file")
+		}
+		fmt.Println("not reproduced")
 	default:
 		obs.Fatal("unknown command %q", os.Args[1])
 	}
+}
+
+func lenClass(n int) string {
+	switch {
+	case n == 0:
+		return "0"
+	case n <= 4:
+		return "1-4"
+	case n <= 32:
+		return "5-32"
+	case n < 256:
+		return "33-255"
+	}
+	return ">=256"
+}
+
+// ---- recorded random executions ---------------------------------------------------------------
+
+// RecordedSpec fully determines one recorded execution (so that it can be re-run).
+type RecordedSpec struct {
+	ID     int     `json:"id"`
+	Combo  Combo   `json:"combo"`
+	Opts   Opts    `json:"opts"`
+	Dir    int     `json:"dir"`
+	Writes []int   `json:"writes"`
+	Faults []Fault `json:"faults"` // positions refer to the records actually produced; inapplicable ones are skipped
+	Mod    string  `json:"mod"`
+	Seg    string  `json:"seg"`
+	ReadSz int     `json:"readsz"`
+	Seed   int     `json:"seed"`
+}
+
+var modClasses = []string{"type", "vers", "len-up", "len-down", "first", "mid", "last", "dropbyte", "addbyte"}
+var segClasses = []string{"whole", "bytes", "records", "halves", "odd"}
+
+func randomSpec(rng *rand.Rand, combos []Combo, i int) RecordedSpec {
+	s := RecordedSpec{ID: i, Combo: combos[(i+rng.Intn(3))%len(combos)], Dir: rng.Intn(2), Seed: rng.Intn(1 << 30),
+		Opts: Opts{NoDynamic: rng.Intn(3) == 0, NoSplit: rng.Intn(3) == 0},
+		Mod:  modClasses[rng.Intn(len(modClasses))], Seg: segClasses[rng.Intn(len(segClasses))],
+		ReadSz: []int{1, 7, 100, 1500, 16384, 70000}[rng.Intn(6)]}
+	if s.ReadSz == 1 {
+		s.ReadSz = 3 // single-byte reads of large streams are slow and add nothing over the schedule replay
+	}
+	sizes := []int{1, 2, 3, 100, 1199, 1200, 1201, 5000, 16383, 16384, 16385, 32768, 40000, 100000}
+	budget := 220000
+	for k := 1 + rng.Intn(6); k > 0 && budget > 0; k-- {
+		n := sizes[rng.Intn(len(sizes))]
+		if rng.Intn(3) == 0 {
+			n = 1 + rng.Intn(20000)
+		}
+		if n > budget {
+			n = budget
+		}
+		budget -= n
+		s.Writes = append(s.Writes, n)
+	}
+	kinds := []string{"modify", "drop", "dup", "swap"}
+	for k := rng.Intn(4); k > 0; k-- {
+		s.Faults = append(s.Faults, Fault{Kind: kinds[rng.Intn(4)], I: 1 + rng.Intn(12), J: 1 + rng.Intn(12)})
+	}
+	return s
+}
+
+// recordOne runs the execution and returns its events for Trace_TLSRecord.
+func recordOne(s *RecordedSpec) ([]map[string]any, error) {
+	ev := []map[string]any{{"ev": "reset", "id": s.ID}}
+	p, err := connect(s.Combo, s.Opts, uint64(s.Seed))
+	if err != nil {
+		return nil, fmt.Errorf("handshake failed: %v", err)
+	}
+	defer p.closeAll()
+	sender, receiver := p.ends(s.Dir)
+	p.box.Capture(s.Dir)
+	total := 0
+	for _, n := range s.Writes {
+		total += n
+	}
+	data := pattern(total, s.Seed)
+	off := 0
+	var all [][]byte
+	for _, n := range s.Writes {
+		m, err := sender.Write(data[off : off+n])
+		if err != nil || m != n {
+			return nil, fmt.Errorf("sender.Write(%d) = %d, %v", n, m, err)
+		}
+		off += n
+		recs, err := splitRecords(p.box.Take(s.Dir))
+		if err != nil {
+			return nil, err
+		}
+		var ranges [][]int
+		for _, r := range recs {
+			lo, hi := plainRange(s.Combo, len(r)-5)
+			ranges = append(ranges, []int{lo, hi})
+		}
+		all = append(all, recs...)
+		ev = append(ev, map[string]any{"ev": "write", "n": n, "recs": ranges})
+	}
+	sender.Close()
+	recs, err := splitRecords(p.box.Take(s.Dir))
+	if err != nil {
+		return nil, err
+	}
+	if len(recs) != 1 {
+		return nil, fmt.Errorf("Close produced %d records", len(recs))
+	}
+	all = append(all, recs...)
+	ev = append(ev, map[string]any{"ev": "close"})
+	wire := all
+	for ord, f := range s.Faults {
+		// make the random fault applicable to the current wire (or skip it)
+		n := len(wire)
+		if n == 0 {
+			break
+		}
+		g := Fault{Kind: f.Kind, I: (f.I-1)%n + 1, J: (f.J-1)%n + 1}
+		switch g.Kind {
+		case "modify", "drop":
+			g.J = 0
+		case "dup":
+			if g.J < g.I {
+				g.J = g.I
+			}
+		case "swap":
+			if g.I == g.J {
+				continue
+			}
+			if g.I > g.J {
+				g.I, g.J = g.J, g.I
+			}
+		}
+		w2, err := applyFaults(wire, []Fault{g}, s.Mod, s.Seed, ord)
+		if err != nil {
+			return nil, err
+		}
+		wire = w2
+		ev = append(ev, map[string]any{"ev": "fault", "kind": g.Kind, "i": g.I, "j": g.J})
+	}
+	for _, seg := range segments(wire, s.Seg, s.Seed) {
+		p.box.Inject(s.Dir, seg)
+	}
+	p.box.CloseDir(s.Dir)
+	var got []byte
+	var rerr error
+	o := obs.Guard(300*time.Second, func() { got, rerr = readAll(receiver, s.ReadSz) })
+	if o.Timeout {
+		return nil, fmt.Errorf("receiver did not return")
+	}
+	if o.Panic != "" {
+		ev = append(ev, map[string]any{"ev": "end", "total": len(got), "match": false, "end": "panic: " + o.Panic})
+		return ev, nil
+	}
+	match := len(got) <= len(data) && bytes.Equal(got, data[:len(got)])
+	ev = append(ev, map[string]any{"ev": "end", "total": len(got), "match": match, "end": endClass(rerr)})
+	_ = tls.VersionTLS13
+	return ev, nil
 }
